@@ -194,6 +194,18 @@ static void reset(void) { NLOG = 0; SEQ = 0; box_drops = arc_clones = arc_drops 
             targets = [ri for ri, r in enumerate(roots) if r["struct"] == w["self_struct"]]
         elif w["cast"]:
             base = [r for r in roots if r["struct"] == w["cast"]]
+            if not base:
+                # the cast may name a flavour of the same object that no root of the model uses (the tool instantiates a context-generic
+                # type for every context of the header): same trait/group and instance kind, other context
+                def stem(r_):
+                    if r_["kind"] == "obj":
+                        return r_["struct"].split("Vtbl_CGlueObjContainer_")[0] + "Vtbl_CGlueObjContainer_"
+                    st = r_["struct"]
+                    for c in ("CArc_c_void", "NoContext"):
+                        if st.endswith(c):
+                            st = st[:-len(c)]
+                    return st.rstrip("_") + "_"
+                base = [r for r in roots if w["cast"].startswith(stem(r)) and (r["kind"] == "obj") == w["cast"].startswith("CGlueTraitObj_")]
             if base:
                 targets = [ri for ri, r in enumerate(roots) if (r["kind"], r["name"]) == (base[0]["kind"], base[0]["name"])]
         for ri in targets:
